@@ -462,9 +462,9 @@ def merge_conditional_assignments(tree):
                 continue                      # the last arm of an elif chain stays an arm of the chain
             for k, st in enumerate(body):
                 if isinstance(st, ast.If) and len(st.body) == 1 and len(st.orelse) == 1 and all(
-                        isinstance(b, ast.Assign) and len(b.targets) == 1 and isinstance(b.targets[0], ast.Name) for b in (st.body[0], st.orelse[0])) \
-                        and st.body[0].targets[0].id == st.orelse[0].targets[0].id:
-                    new = ast.Assign(targets=[ast.Name(id=st.body[0].targets[0].id, ctx=ast.Store())], value=ast.IfExp(test=st.test, body=st.body[0].value, orelse=st.orelse[0].value))
+                        isinstance(b, ast.Assign) and len(b.targets) == 1 and isinstance(b.targets[0], (ast.Name, ast.Subscript, ast.Attribute)) for b in (st.body[0], st.orelse[0])) \
+                        and ast.dump(st.body[0].targets[0]) == ast.dump(st.orelse[0].targets[0]):
+                    new = ast.Assign(targets=[st.body[0].targets[0]], value=ast.IfExp(test=st.test, body=st.body[0].value, orelse=st.orelse[0].value))
                     ast.copy_location(new, st)
                     ast.fix_missing_locations(new)
                     body[k] = new
